@@ -34,6 +34,7 @@ struct Inner {
     inconclusive: Vec<String>,
     assumptions: Vec<String>,
     extra: BTreeMap<String, Value>,
+    extra_distinct: u64,
 }
 
 pub fn verif_root() -> String {
@@ -68,6 +69,10 @@ impl Report {
     /// count a distinct non-trivial case by hash
     pub fn distinct(&self, h: u64) {
         self.inner.lock().unwrap().distinct.insert(h);
+    }
+    /// distinct cases measured by a sub-tool over a disjoint case space
+    pub fn add_distinct_count(&self, n: u64) {
+        self.inner.lock().unwrap().extra_distinct += n;
     }
     pub fn distinct_str(&self, s: &str) {
         self.distinct(crate::util::fnv(s.as_bytes()));
@@ -214,7 +219,7 @@ impl Report {
         let wall = (now_ns() - self.t0) as f64 / 1e9;
         let mut coverage = serde_json::Map::new();
         coverage.insert("evaluations".into(), json!(g.evaluations.max(1)));
-        coverage.insert("distinct_nontrivial".into(), json!(g.distinct.len()));
+        coverage.insert("distinct_nontrivial".into(), json!(g.distinct.len() as u64 + g.extra_distinct));
         coverage.insert("rule".into(), json!(self.rule));
         let samples = if g.samples.is_empty() {
             vec![json!("no sample recorded")]
